@@ -606,7 +606,7 @@ def _run_cases(P, prop_id, tier, seed, rng, t0, broken, notes, axioms, driver_ok
     searched = 0
     if not failures and (disagreements or broken) and not replay and exes:
         log('proof/tie broken without a failing input in hand: searching')
-        budget_s = 60 if tier == 'quick' else 600
+        budget_s = 150 if tier == "quick" else 900
         ts = time.time()
         k = 0
         while time.time() - ts < budget_s and not failures:
